@@ -51,19 +51,18 @@ func RunProperty(prop string, c04 bool, seed int64, tier, out string) {
 			defer func() { <-sem }()
 			runs[i] = Execute(scs[i])
 			finds[i] = runs[i].Oracle()
-			if runs[i].Root != nil {
+			if runs[i].Root != nil && !scs[i].Depth2 {
 				terms[i] = runs[i].CaseTerm()
 			}
 		}(i)
 	}
 	wg.Wait()
-	for i, r := range runs {
+	// trees of depth 1 are replayed through the LTS; deeper trees (Model/Settle.v has one level of sub-channels)
+	// are covered by the oracle and by the ledger-level correspondence of their ledger calls
+	var deep []int
+	report := func(i int, caseIdx int) {
+		r := runs[i]
 		class := classOf(r)
-		caseIdx := -1
-		if terms[i] != "" {
-			caseIdx = sw.Add(terms[i])
-			res.CaseIndex = append(res.CaseIndex, class)
-		}
 		for _, n := range r.Notes {
 			if strings.Contains(n, "deadline exceeded") {
 				res.Warnings = append(res.Warnings, fmt.Sprintf("scenario %d: %s | %s", i, n, scs[i].String()))
@@ -89,6 +88,28 @@ func RunProperty(prop string, c04 bool, seed int64, tier, out string) {
 				Replay: map[string]interface{}{"scenario": scs[i].String(), "notes": r.Notes, "settle_errors": r.SetErr, "adversary": r.AdvDone, "log": strings.Split(Describe(r), "\n")}})
 		}
 	}
+	for i, r := range runs {
+		if r.Sc.Depth2 {
+			deep = append(deep, i)
+			continue
+		}
+		caseIdx := -1
+		if terms[i] != "" {
+			caseIdx = sw.Add(terms[i])
+			res.CaseIndex = append(res.CaseIndex, classOf(r))
+		}
+		report(i, caseIdx)
+	}
+	sw.Flush()
+	for _, i := range deep {
+		caseIdx := -1
+		if runs[i].Root != nil {
+			caseIdx = lw.Add(runs[i].LedgerCaseTerm())
+			res.CaseIndex = append(res.CaseIndex, classOf(runs[i])+"/ledger-calls")
+		}
+		report(i, caseIdx)
+	}
+	lw.Flush()
 	sw.Flush()
 	res.PerFile = 6
 	res.Write(out)
@@ -118,6 +139,9 @@ func classOf(r *Run) string {
 	}
 	if subs {
 		k = append(k, "subs")
+	}
+	if sc.Depth2 {
+		k = append(k, "depth2")
 	}
 	if final {
 		k = append(k, "final")
